@@ -42,7 +42,7 @@ func runNativeFuzz(r *runner) {
 	os.MkdirAll(root, 0o755)
 	os.MkdirAll(out, 0o755)
 	t0 := time.Now()
-	args := []string{"test", "-c", "-tags", "verif unit", "-fuzz=Fuzz", "-o", bin}
+	args := []string{"test", "-c", "-vet=off", "-tags", "verif unit", "-fuzz=Fuzz", "-o", bin}
 	if ov := filepath.Join(work, "overlay.json"); fileExists(ov) { // written by bin/check from the config's overlay_files
 		args = append(args, "-overlay", ov)
 	} else if ov := os.Getenv("C07_OVERLAY"); ov != "" {
@@ -51,6 +51,7 @@ func runNativeFuzz(r *runner) {
 	build := exec.Command(goBin, append(args, "./cmd/c07")...)
 	if b, err := build.CombinedOutput(); err != nil {
 		r.res.Note("native fuzzing skipped: test binary does not build: " + lastLines(string(b), 5))
+		r.res.Disagree("harness-selfcheck", "go test -c -fuzz ./cmd/c07", "the native fuzz targets build against /repo's working tree", lastLines(string(b), 5))
 		return
 	}
 	r.res.Hit("fuzz:build_s:" + strconv.Itoa(int(time.Since(t0).Seconds())))
